@@ -178,9 +178,7 @@ func (r *rewriter) pre(n ast.Node) (ast.Node, bool) {
 		}
 	case *ast.RangeStmt:
 		if t := r.typeOf(s.X); t != nil {
-			if _, ok := t.Underlying().(*types.Chan); ok {
-				r.errorf(s.Pos(), "range over a channel is not supported by vxform")
-			}
+			_ = t // channels: rewritten in post (rewriteChanRange)
 		} else {
 			r.errorf(s.Pos(), "range expression has no type information")
 		}
@@ -205,6 +203,13 @@ func (r *rewriter) post(n ast.Node) ast.Node {
 		if id, ok := s.Fun.(*ast.Ident); ok {
 			if r.isBuiltin(id, "close") && len(s.Args) == 1 {
 				return r.vrtCall("Close", s.Args[0])
+			}
+			if r.isBuiltin(id, "len") && len(s.Args) == 1 {
+				if t := r.typeOf(s.Args[0]); t != nil {
+					if _, ok := t.Underlying().(*types.Chan); ok {
+						return r.vrtCall("ChanLen", s.Args[0])
+					}
+				}
 			}
 			if r.isBuiltin(id, "make") && len(s.Args) >= 1 {
 				if ct, ok := s.Args[0].(*ast.ChanType); ok && ct.Dir == ast.SEND|ast.RECV {
@@ -231,6 +236,9 @@ func (r *rewriter) post(n ast.Node) ast.Node {
 		if t := r.typeOf(s.X); t != nil {
 			if _, ok := t.Underlying().(*types.Map); ok {
 				return r.rewriteMapRange(s)
+			}
+			if _, ok := t.Underlying().(*types.Chan); ok {
+				return r.rewriteChanRange(s)
 			}
 		}
 	}
@@ -296,6 +304,39 @@ func (r *rewriter) rewriteMapRange(s *ast.RangeStmt) ast.Stmt {
 	head = append(head, &ast.IfStmt{Cond: &ast.UnaryExpr{Op: token.NOT, X: okID}, Body: &ast.BlockStmt{List: []ast.Stmt{&ast.BranchStmt{Tok: token.CONTINUE}}}})
 	body := &ast.BlockStmt{List: append(head, s.Body.List...)}
 	return &ast.RangeStmt{Key: ast.NewIdent("_"), Value: ent, Tok: token.DEFINE, X: r.vrtCall("MapIter", s.X), Body: body}
+}
+
+// rewriteChanRange turns `for v := range ch { body }` into `for { v, ok := vrt.Recv2(ch); if !ok { break }; body }`
+// (the channel expression is evaluated once, as the language says).
+func (r *rewriter) rewriteChanRange(s *ast.RangeStmt) ast.Stmt {
+	okID := r.tmp("Ok")
+	var chID ast.Expr = r.tmp("Ch")
+	inline := simple(s.X)
+	if inline {
+		// a plain variable or field path: reading it again in every iteration has no side effects, and the loop
+		// stays a loop (labels on it keep working)
+		chID = s.X
+	}
+	recv := r.vrtCall("Recv2", chID)
+	var head []ast.Stmt
+	switch {
+	case isBlank(s.Key):
+		head = append(head, &ast.AssignStmt{Lhs: []ast.Expr{ast.NewIdent("_"), okID}, Tok: token.DEFINE, Rhs: []ast.Expr{recv}})
+	case s.Tok == token.ASSIGN:
+		head = append(head, &ast.DeclStmt{Decl: &ast.GenDecl{Tok: token.VAR, Specs: []ast.Spec{&ast.ValueSpec{Names: []*ast.Ident{okID}, Type: ast.NewIdent("bool")}}}})
+		head = append(head, &ast.AssignStmt{Lhs: []ast.Expr{s.Key, okID}, Tok: token.ASSIGN, Rhs: []ast.Expr{recv}})
+	default:
+		head = append(head, &ast.AssignStmt{Lhs: []ast.Expr{s.Key, okID}, Tok: token.DEFINE, Rhs: []ast.Expr{recv}})
+	}
+	head = append(head, &ast.IfStmt{Cond: &ast.UnaryExpr{Op: token.NOT, X: okID}, Body: &ast.BlockStmt{List: []ast.Stmt{&ast.BranchStmt{Tok: token.BREAK}}}})
+	loop := &ast.ForStmt{Body: &ast.BlockStmt{List: append(head, s.Body.List...)}}
+	if inline {
+		return loop
+	}
+	return &ast.BlockStmt{List: []ast.Stmt{
+		&ast.AssignStmt{Lhs: []ast.Expr{chID}, Tok: token.DEFINE, Rhs: []ast.Expr{s.X}},
+		loop,
+	}}
 }
 
 func (r *rewriter) rewriteSelect(s *ast.SelectStmt, label *ast.Ident) ast.Stmt {
